@@ -28,7 +28,8 @@ REQUIRED = ["op.add", "op.assign-all", "op.assign-ids", "op.assign-times", "op.a
             "op.remove-list", "op.re-add", "route.xml", "route.protobuf", "shape.Rectangle", "shape.Circle",
             "shape.Polygon", "shape.ShapeGroup", "obstacle.static", "obstacle.dynamic-trajectory", "obstacle.dynamic-none",
             "straddling(centre-lanelets<shape-lanelets)", "inv-g-checked", "inv-r-checked", "op.move",
-            "centre-on-a-lanelet-the-occupancy-does-not-touch", "scripted-history", "op.shorten-prediction"]
+            "centre-on-a-lanelet-the-occupancy-does-not-touch", "scripted-history", "op.shorten-prediction",
+            "dynamic-obstacle-entering-after-step-0"]
 EXHAUSTIVE = {"quick": "all histories of length <= 2 over the 10-operation alphabet on a fixed 2-obstacle universe",
               "thorough": "all histories of length <= 3 over the 10-operation alphabet on a fixed 2-obstacle universe"}
 ASSUMPTIONS = ["set-based predictions are outside the quantifier", "obstacles are added after the network exists",
@@ -37,7 +38,7 @@ ASSUMPTIONS = ["set-based predictions are outside the quantifier", "obstacles ar
 SHARDS = {"quick": 4, "thorough": 16}
 
 
-def gen_obstacle(rng, oid, lanelets, kind=None, shape_kind=None):
+def gen_obstacle(rng, oid, lanelets, kind=None, shape_kind=None, t0=None):
     import numpy as np
     from commonroad.geometry.shape import Circle, Polygon, Rectangle, ShapeGroup
     from commonroad.prediction.prediction import TrajectoryPrediction
@@ -79,20 +80,23 @@ def gen_obstacle(rng, oid, lanelets, kind=None, shape_kind=None):
         th = rng.choice([0.0, 0.0, 0.0, rng.uniform(-3, 3)])
         return np.array([float(p[0]), float(p[1])]), th
     p0, th0 = place()
-    init = InitialState(time_step=0, position=p0, orientation=th0, velocity=1.0)
     if kind == "static":
+        init = InitialState(time_step=0, position=p0, orientation=th0, velocity=1.0)
         return StaticObstacle(oid, ObstacleType.PARKED_VEHICLE, shape, init), kind, sk
+    # dynamic obstacles may enter the scene later than time step 0
+    t0 = rng.choice([0, 0, 0, 2]) if t0 is None else t0
+    init = InitialState(time_step=t0, position=p0, orientation=th0, velocity=1.0)
     pred = None
     if kind == "dynamic-trajectory":
         states = []
         prev = p0
-        for t in range(1, rng.randint(2, 6)):
+        for t in range(t0 + 1, t0 + rng.randint(2, 6)):
             p, th = place()
             if rng.random() < 0.35:  # standing still while turning: same position, another orientation
                 p, th = prev.copy(), rng.choice([math.pi / 2, rng.uniform(-3, 3), 0.0])
             prev = p
             states.append(KSState(time_step=t, position=p, orientation=th, velocity=1.0, steering_angle=0.0))
-        pred = TrajectoryPrediction(Trajectory(1, states), shape)
+        pred = TrajectoryPrediction(Trajectory(t0 + 1, states), shape)
     return DynamicObstacle(oid, ObstacleType.CAR, shape, init, pred), kind, sk
 
 
@@ -344,7 +348,9 @@ def run(ctx):
                   ("ShapeGroup", "Rectangle")][i % 4]
         obs = []
         for oid, k, sk in zip((101, 102), kinds, shapes):
-            o, kind, skk = gen_obstacle(rng, oid, lanelets, k, sk)
+            o, kind, skk = gen_obstacle(rng, oid, lanelets, k, sk, t0=(2 if i % 2 == 1 else 0))
+            if i % 2 == 1 and k != "static":
+                ctx.feature("dynamic-obstacle-entering-after-step-0")
             obs.append(o)
             ctx.feature("obstacle." + kind)
             ctx.feature("shape." + skk)
